@@ -1117,6 +1117,66 @@ def free_race(chk: core.Check) -> None:
         _race_verdict(chk, "processes", url, sid, ids, log, errors, mr, nw)
 
 
+# ---- wall-clock / time-zone probe ---------------------------------------------------------------------------------------
+TZ_CHILD = r"""
+import os, sys, time, datetime, json
+os.environ["TZ"] = sys.argv[2]
+time.tzset()
+sys.path.insert(0, %(root)r)
+import optuna
+from sqlalchemy import text
+from optuna.storages import RDBStorage
+from optuna.trial import TrialState
+optuna.logging.set_verbosity(optuna.logging.ERROR)
+url = sys.argv[1]
+mk = lambda: RDBStorage(url, heartbeat_interval=60, grace_period=120)
+owner, sweeper = mk(), mk()
+study = optuna.create_study(storage=owner, study_name="tz")
+fresh = study.ask()
+owner.record_heartbeat(fresh._trial_id)                      # the FIRST beat of a live trial (an INSERT)
+stale = study.ask()
+owner.record_heartbeat(stale._trial_id)
+owner.record_heartbeat(stale._trial_id)                      # a later beat (an UPDATE)
+with owner.engine.begin() as c:                              # ... and the worker dies: the row is an hour old by the DATABASE clock
+    c.execute(text("UPDATE trial_heartbeats SET heartbeat = datetime(CURRENT_TIMESTAMP, '-3600 seconds') WHERE trial_id = :t"), {"t": stale._trial_id})
+other = optuna.load_study(storage=sweeper, study_name="tz")
+optuna.storages.fail_stale_trials(other)
+ts = {t._trial_id: t.state.name for t in sweeper.get_all_trials(other._study_id, deepcopy=False)}
+print("RESULT " + json.dumps({"fresh": ts[fresh._trial_id], "stale": ts[stale._trial_id]}))
+"""
+
+
+def timezone_probe(chk: core.Check) -> None:
+    """Staleness is judged on ONE clock (the database's) whatever the worker's local time zone: a trial whose first
+    heartbeat was just recorded is never failed, one whose heartbeat is an hour old always is - for workers west and east
+    of UTC alike."""
+    import subprocess
+    import sys
+
+    script = os.path.join(chk.tmp, "tz_child.py")
+    with open(script, "w") as f:
+        f.write(TZ_CHILD % {"root": core.REPO})
+    for tz in ("PST8", "UTC", "JST-9", "NPT-5:45"):
+        url = "sqlite:///" + os.path.join(chk.tmp, "tz_%s_%d.db" % (tz.replace(":", "").replace("-", "m"), os.getpid()))
+        p = subprocess.run([sys.executable, script, url, tz], capture_output=True, text=True, timeout=300, env=dict(os.environ))
+        line = next((l for l in p.stdout.splitlines() if l.startswith("RESULT ")), None)
+        if line is None:
+            chk.extra.setdefault("tz_probe_errors", []).append({"tz": tz, "stderr": p.stderr[-300:]})
+            chk.count("tz-probe:infra")
+            continue
+        res = json.loads(line[7:])
+        chk.case({"part": "tz-probe", "tz": tz}, nontrivial=tz != "UTC")
+        chk.count("tz-probe")
+        if res["fresh"] != "RUNNING":
+            chk.violation({"kind": "not-stale-noticed", "scenario": "tz-probe"}, {"part": "tz-probe", "tz": tz, "result": res},
+                          "worker in time zone %s: a RUNNING trial whose first heartbeat had just been recorded was moved to %s by fail_stale_trials (grace 120 s)" % (tz, res["fresh"]))
+            return
+        if res["stale"] != "FAIL":
+            chk.violation({"kind": "stale-not-noticed", "scenario": "tz-probe"}, {"part": "tz-probe", "tz": tz, "result": res},
+                          "worker in time zone %s: a RUNNING trial whose heartbeat is an hour old (database clock) was left %s by fail_stale_trials (grace 120 s)" % (tz, res["stale"]))
+            return
+
+
 def search(chk: core.Check) -> None:
     """Failing-input search after a breakage: many more schedules; only the model-independent oracle matters."""
     c19_rdb.search(chk)  # boundary ages / retry arithmetic on the SQL side first (cheap, deterministic)
@@ -1143,6 +1203,7 @@ def main(chk: core.Check) -> int:
     except core.DriverBroken as e:
         chk.broke("correspondence", {"driver": str(e)[:800]})
     c19_rdb.correspond(chk, chk.tier)  # the SQL side: relational heartbeat model vs RDBStorage, virtual database clock
+    timezone_probe(chk)  # real clocks, workers in other time zones
     free_race(chk)
     chk.assumptions += [
         "one storage call = one atomic step: RDBStorage.set_trial_state_values changes the state with one conditional UPDATE (SQLite/SQLAlchemy statement + transaction semantics are trusted); the gated tie serialises calls, the free-running thread/process races sample the real interleavings without the model",
